@@ -131,7 +131,7 @@ def rule_thin_ctor(ctx, rep):
         thin = F.handle_paths.get("ThinArc")
         if PROT and thin:
             _thin_ctor(F, PROT, thin, rep, tag)
-    rep.floor("R-THIN-CTOR", 3, "unchecked cast, its unsafe wrapper, the checked call site")
+    rep.floor("R-THIN-CTOR", 2, "the typestate entry and at least one checked call site (today 3 instances)")
 
 
 def run(ctx, rep):
@@ -252,9 +252,9 @@ def run(ctx, rep):
     from . import c05
 
     c05.rule_repr(ctx, rep)
-    rep.floor("R-THIN-CTOR", 3, "unchecked cast, its unsafe wrapper, the checked call site")
+    rep.floor("R-THIN-CTOR", 2, "the typestate entry and at least one checked call site (today 3 instances)")
     rep.floor("R-PROT-MUT", 4, "header_mut, slice_mut, private field, no DerefMut")
-    rep.floor("R-THICK", 7, "helper + 6 users")
+    rep.floor("R-THICK", 3, "the re-fattening helper + at least two users (today 6)")
     rep.floor("R-THIN-ID", 4, "four thin/fat conversions")
     rep.floor("R-THIN-REFUSE", 1, "into_thin")
 
